@@ -106,6 +106,33 @@ fn check_case(c: &Case) -> Outcome {
         }
     }
     if c.second_entry {
+        // the same query again on a database that has already answered it (and a full scan in between): whatever a
+        // query leaves behind (statistics, dictionary entries of BIND results, ...) must not change a later answer
+        o.inner_evals += 1;
+        o.class("same-database-queried-again");
+        let again = catch(|| {
+            let mut db = SparqlDatabase::new();
+            load_into(&mut db, &c.data);
+            let first = execute_sparql_query(&text, &mut db);
+            let _ = execute_sparql_query("SELECT * WHERE { ?s ?p ?o }", &mut db);
+            (first, execute_sparql_query(&text, &mut db))
+        });
+        match again {
+            Err(site) => {
+                o.panic(&format!("execute_sparql_query({text}) three queries on one database"), &site);
+                return o;
+            }
+            Ok((Ok(_), Ok(rows))) => {
+                if let Err((s, d)) = check_answer(&c.query, &full, &rows) {
+                    o.fail(format!("c01.requery.{s}[{fsig}]"), format!("second execution on the same database: {d}\nquery: {text}\ndata: {:?}", lex));
+                    return o;
+                }
+            }
+            Ok((_, Err(e))) | Ok((Err(e), _)) => {
+                o.fail(format!("c01.requery.err[{fsig}]"), format!("query rejected when run on a database that had answered it before: {e}\nquery: {text}"));
+                return o;
+            }
+        }
         o.inner_evals += 1;
         match run(true) {
             Err(site) => o.panic(&format!("execute_query_rayon_parallel2_volcano({text})"), &site),
